@@ -17,12 +17,13 @@ def fresh_name(prefix: str) -> str:
 class Val:
     """A z3 term with its pyvc type."""
 
-    __slots__ = ("term", "ty", "origin")
+    __slots__ = ("term", "ty", "origin", "template")
 
-    def __init__(self, term, ty: Ty, origin=None):
+    def __init__(self, term, ty: Ty, origin=None, template=None):
         self.term = term
         self.ty = ty
         self.origin = origin  # l-value path this value was read from (alias tracking)
+        self.template = template  # for string literals / f-strings: the text with {expr} placeholders (SQL glue)
 
     def __repr__(self):
         return f"Val({self.term}:{self.ty})"
